@@ -1182,6 +1182,12 @@ func (t *pfTr) flattenResults(vals []string) ([]string, string) {
 	var flat []string
 	for i, v := range vals {
 		switch {
+		case g.isResPtr(i):
+			a, bad := t.ptrResult(v, i)
+			if bad != "" {
+				return nil, bad
+			}
+			flat = append(flat, a)
 		case g.resShape[i] != nil:
 			if !(strings.HasPrefix(v, pfInPrefix) || strings.HasPrefix(v, pfStPrefix)) {
 				return nil, fmt.Sprintf("result %d is not a struct value", i)
